@@ -54,6 +54,7 @@ def setup(ctx):
     spec, mark = _classes()
     ctx.zoo_spec, ctx.zoo_mark = [], []
     ctx.zoo_ids = set()
+    ctx.zoo_hash0 = {}
 
     def post_eq(args, kwargs, r):
         if r is not True:
@@ -88,6 +89,10 @@ def _add(ctx, zoo, obj, cap):
         return
     ctx.zoo_ids.add(id(obj))
     zoo.append(obj)
+    try:
+        ctx.zoo_hash0[id(obj)] = hash(obj)  # hash at first sight: must survive every later use of the object
+    except Exception:  # noqa: BLE001
+        pass
 
 
 def _spec_sig(x, pts):
@@ -367,6 +372,21 @@ def run(ctx):
         run_repo_tests(ctx, ("marker", "specifier"))
     _spec_part(ctx)
     _marker_part(ctx)
+    # hash / == must not depend on lazily computed state: compare with the hash recorded at first sight, and every
+    # object with a freshly built twin (same text) after all the use above
+    from dep_logic.markers import parse_marker
+    from dep_logic.specifiers import parse_version_specifier
+
+    for zoo, reparse in ((ctx.zoo_spec, parse_version_specifier), (ctx.zoo_mark, parse_marker)):
+        for x in zoo:
+            bump("hash-stability")
+            h0 = ctx.zoo_hash0.get(id(x))
+            try:
+                if h0 is not None and hash(x) != h0:
+                    violation(PROP, "hash-stability", "hash(x) changed after x was used as an operand / key",
+                              {"x": repr(x), "group": "hash-drift"})
+            except Exception as e:  # noqa: BLE001
+                violation(PROP, "hash-stability", f"hash raised {type(e).__name__} after use", {"x": repr(x)})
     ctx.extra["zoo_specifiers"] = len(ctx.zoo_spec)
     ctx.extra["zoo_markers"] = len(ctx.zoo_mark)
     if len(ctx.samples) < 4:
